@@ -25,6 +25,8 @@ func init() {
 			"(R5, part of R4) columns marked DELTA coded reach the element through a running sum, the others do not; " +
 			"(R6) every element literal starts with Visible: true; header fields come from the same-named header getters, the bbox edges from left/right/bottom/top scaled by 1e-9, the replication timestamp only under a presence test of its field; " +
 			"(R7, shared with C08.O5) element storage kept for reuse (tags, way nodes, members) is only re-sliced to [:0], extended by append of whole elements or replaced by zeroed make: a reused, non-zeroed backing array would let an element inherit a value (e.g. node coordinates) from an earlier element. " +
+			"(R8, shared with C08.O6) every cycle of the loop in which a worker receives blocks sends one result pair (or is taken under cancellation): the elements of a block are not dropped and the round-robin serializer stays in step with the file order. " +
+			"Presence state of R2 may be kept in any of: bool locals, a struct of bools (also with methods), a bit set in a named integer, a bool array / made slice / map indexed by field number, fields of the decoder itself, a table of pointers to the iterators; helper functions and methods on that state are executed. " +
 			"NOT decided: numeric equality of coordinates/timestamps (overflow, rounding), UTF-8 and zlib handling, behaviour of protoscan and protobuf-go themselves, files using non-packed encodings of packed fields.",
 		Assumptions: []string{"go/types, go/cfg (x/tools v0.29.0)", "osmformat.proto in the repository is the format definition (its `// DELTA coded` comments mark delta columns)", "OSMData blobs hold a PrimitiveBlock", "protoscan read methods decode the wire encoding their name says", "one per-worker decoder value per goroutine (its fields are not shared)"},
 		LevelText:   "Structural necessary conditions of field-for-field faithful decoding, decided for every read site, every cached iterator use on every path, and every element field store: agreement with the parsed format descriptor, no stale per-decoder state, right column / formula shape / delta coding per field.",
@@ -37,10 +39,11 @@ func init() {
 			{ID: "R3", Floor: 6, Doc: "block parameters reset before parsing; parameters parsed before groups", Run: c01R3},
 			{ID: "R4", Floor: 30, Doc: "field provenance and formula shape (floor: destinations of the column table)", Run: c01R4},
 			{ID: "R6", Floor: 14, Doc: "format defaults and header mapping (floor: header fields + one literal per element kind)", Run: c01R6},
+			{ID: "R8", Floor: 1, Doc: "every block a worker receives yields one result pair: no block's elements are dropped or reordered (same necessary condition as C08.O6)", Run: c08O6},
 			{ID: "R7", Floor: 5, Doc: "reused element storage is never re-exposed without zeroing (same necessary condition as C08.O5)", Run: c08O5},
 		},
-		Benign: append(append(append(append([]core.Mutant{}, c01Benign...), c01Benign2...), c01Benign3...), c01Benign4...),
-		Mutants: append(append([]core.Mutant{}, c01Mutants2...), []core.Mutant{
+		Benign: append(append(append(append(append([]core.Mutant{}, c01Benign...), c01Benign2...), c01Benign3...), c01Benign4...), c01Benign5...),
+		Mutants: append(append(append([]core.Mutant{}, c01Mutants2...), c01Mutants3...), []core.Mutant{
 			{Name: "dense-uid-int32", File: "osmpbf/decode_data.go", Find: "v5, err := dec.uids.Sint32()", Replace: "v5, err := dec.uids.Int32()", ExpectRule: "R1", ExpectConstruct: "uids"},
 			{Name: "info-uid-as-uint32", File: "osmpbf/decode_data.go", Find: "\t\t\t\tcase 4:\n\t\t\t\t\tv, err := info.Int32()\n\t\t\t\t\tif err != nil {\n\t\t\t\t\t\treturn nil, err\n\t\t\t\t\t}\n\t\t\t\t\tway.UserID", Replace: "\t\t\t\tcase 4:\n\t\t\t\t\tv, err := info.Uint32()\n\t\t\t\t\tif err != nil {\n\t\t\t\t\t\treturn nil, err\n\t\t\t\t\t}\n\t\t\t\t\tway.UserID", ExpectRule: "R1", ExpectConstruct: "scanWays"},
 			{Name: "lat-lon-cases-swapped", File: "osmpbf/decode_data.go", Find: "\t\tcase 8: // lat\n\t\t\tdec.lats, err = msg.Iterator(dec.lats)\n\t\t\tfoundLats = true\n\t\tcase 9: // lon\n\t\t\tdec.lons, err = msg.Iterator(dec.lons)\n\t\t\tfoundLons = true", Replace: "\t\tcase 9: // lat\n\t\t\tdec.lats, err = msg.Iterator(dec.lats)\n\t\t\tfoundLats = true\n\t\tcase 8: // lon\n\t\t\tdec.lons, err = msg.Iterator(dec.lons)\n\t\t\tfoundLons = true", ExpectRule: "R4", ExpectConstruct: "Node.Lat"},
@@ -63,6 +66,7 @@ func init() {
 			{Name: "relation-not-visible-by-default", File: "osmpbf/decode_data.go", Find: "\t\trelation = &osm.Relation{Visible: true}\n\t}\n\n\tvar foundKeys", Replace: "\t\trelation = &osm.Relation{}\n\t}\n\n\tvar foundKeys", ExpectRule: "R6", ExpectConstruct: "Relation"},
 			{Name: "header-source-from-writingprogram", File: "osmpbf/decode.go", Find: "Source:             headerBlock.GetSource(),", Replace: "Source:             headerBlock.GetWritingprogram(),", ExpectRule: "R6", ExpectConstruct: "Source"},
 			{Name: "bbox-top-bottom-swapped", File: "osmpbf/decode.go", Find: "MinLat: 1e-9 * float64(*headerBlock.Bbox.Bottom),", Replace: "MinLat: 1e-9 * float64(*headerBlock.Bbox.Top),", ExpectRule: "R6", ExpectConstruct: "MinLat"},
+			{Name: "empty-block-result-dropped", File: "osmpbf/decode.go", Find: "\t\t\t\t\tobjects, err := dd.Decode(p.Blob)\n", Replace: "\t\t\t\t\tobjects, err := dd.Decode(p.Blob)\n\t\t\t\t\tif err == nil && len(objects) == 0 {\n\t\t\t\t\t\tcontinue\n\t\t\t\t\t}\n", ExpectRule: "R8", ExpectConstruct: "one result per block"},
 			{Name: "way-nodes-regrown-unzeroed", File: "osmpbf/decode_data.go", Find: "way.Nodes = make(osm.WayNodes, dec.wlats.Count(protoscan.WireTypeVarint))", Replace: "if n := dec.wlats.Count(protoscan.WireTypeVarint); n <= cap(way.Nodes) {\n\t\t\t\t\tway.Nodes = way.Nodes[:n]\n\t\t\t\t} else {\n\t\t\t\t\tway.Nodes = make(osm.WayNodes, n)\n\t\t\t\t}", ExpectRule: "R7", ExpectConstruct: "scanWays"},
 			{Name: "member-type-way-as-node", File: "osmpbf/decode_data.go", Find: "\t\tcase osmpbf.Relation_WAY:\n\t\t\tmembers[index].Type = osm.TypeWay", Replace: "\t\tcase osmpbf.Relation_WAY:\n\t\t\tmembers[index].Type = osm.TypeNode", ExpectRule: "R4", ExpectConstruct: "Member.Type"},
 		}...),
@@ -187,6 +191,20 @@ func c01R1(r *core.R) {
 			}
 			return true
 		})
+	}
+	// a field number covered by a range test (`fn < 1 || fn > 6` excluded) counts as tested where a read executes under it
+	for _, rd := range cm.reads {
+		if rd.mv == nil {
+			continue
+		}
+		if cases[rd.mv.msg] == nil {
+			cases[rd.mv.msg] = map[int]token.Pos{}
+		}
+		for _, cn := range rd.cases {
+			if _, dup := cases[rd.mv.msg][cn]; !dup {
+				cases[rd.mv.msg][cn] = rd.call.Pos()
+			}
+		}
 	}
 	// descriptor fields the decoder deliberately does not turn into objects
 	exempt := map[string]string{"PrimitiveGroup.changesets": "changesets in data blocks are not OSM elements the scanner returns"}
@@ -427,7 +445,27 @@ func c01R3(r *core.R) {
 			if c01GenTypeName(sig.Results().At(0).Type()) != "" {
 				return true // getter of a sub-message: the parameters are its scalar / repeated leaves
 			}
-			if !usesField(info, call, pbField) {
+			// the getter is applied to the cached block (directly or through a local that aliases it)
+			viaBlock := usesField(info, call, pbField)
+			if sel, ok := ast.Unparen(call.Fun).(*ast.SelectorExpr); ok && !viaBlock {
+				for _, fl := range c01ChainFields(info, c01Chain(info, fi.Decl.Body, sel.X)) {
+					if fl == pbField {
+						viaBlock = true
+					}
+				}
+				// ... or to a sub-message read from it by a getter (`pb.GetStringtable().GetS()`)
+				ast.Inspect(sel.X, func(y ast.Node) bool {
+					if id, ok := y.(*ast.Ident); ok {
+						for _, fl := range c01ChainFields(info, c01Chain(info, fi.Decl.Body, id)) {
+							if fl == pbField {
+								viaBlock = true
+							}
+						}
+					}
+					return true
+				})
+			}
+			if !viaBlock {
 				return true
 			}
 			fname := strings.TrimPrefix(fn.Name(), "Get")
